@@ -526,7 +526,12 @@ func (t *transitiveClosure) addElement(
 			inputMode, outputMode := t.elements[inputInfo.element], t.elements[outputInfo.element]
 			if inputMode == inclusionModeExcluded || outputMode == inclusionModeExcluded {
 				// The input or ouptut is excluded, so this method is also excluded.
-				t.elements[inputInfo.element] = inclusionModeExcluded
+				// With only excluded types everything that is not marked is kept,
+				// so the method must be marked. With included types an unmarked method
+				// is dropped, and including it explicitly still reports the excluded type.
+				if opts.includeTypes == nil {
+					t.elements[method] = inclusionModeExcluded
+				}
 				continue
 			}
 			if err := t.addElement(method, "", false, imageIndex, opts); err != nil {
